@@ -81,6 +81,23 @@ static const char *find_label_at(const DisasmLabel *labels, uint32_t count, uint
 }
 
 /* ========================================================================
+ * String Escaping (the inverse of the assembler's parse_quoted_string)
+ * ======================================================================== */
+
+static void print_escaped(FILE *out, const char *s, uint32_t len) {
+    for (uint32_t i = 0; i < len; i++) {
+        switch (s[i]) {
+            case '\n': fprintf(out, "\\n"); break;
+            case '\t': fprintf(out, "\\t"); break;
+            case '\\': fprintf(out, "\\\\"); break;
+            case '"':  fprintf(out, "\\\""); break;
+            case '\0': fprintf(out, "\\0"); break;
+            default:   fputc(s[i], out); break;
+        }
+    }
+}
+
+/* ========================================================================
  * Operand Formatting
  * ======================================================================== */
 
@@ -100,7 +117,9 @@ static void format_operand(FILE *out, const DecodedInstruction *instr, int idx,
                 const char *str = nvm_get_string(mod, instr->operands[idx].u32);
                 if (str) {
                     fprintf(out, " %u", instr->operands[idx].u32);
-                    fprintf(out, "  ; \"%s\"", str);
+                    fprintf(out, "  ; \"");
+                    print_escaped(out, str, mod->string_lengths[instr->operands[idx].u32]);
+                    fprintf(out, "\"");
                     return;
                 }
             }
@@ -195,16 +214,8 @@ void disasm_module_to_file(const NvmModule *mod, FILE *out) {
         const char *s = nvm_get_string(mod, i);
         if (s) {
             fprintf(out, ".string \"");
-            /* Escape special characters */
-            for (const char *p = s; *p; p++) {
-                switch (*p) {
-                    case '\n': fprintf(out, "\\n"); break;
-                    case '\t': fprintf(out, "\\t"); break;
-                    case '\\': fprintf(out, "\\\\"); break;
-                    case '"':  fprintf(out, "\\\""); break;
-                    default:   fputc(*p, out); break;
-                }
-            }
+            /* Escape special characters (length-based: a pool string may contain NUL bytes) */
+            print_escaped(out, s, mod->string_lengths[i]);
             fprintf(out, "\"\n");
         }
     }
